@@ -407,6 +407,8 @@ def run(ctx):
     run_r3(ctx, r3)
     r4 = ctx.rule("C08-R4", "errors are raised at the cursor or at the mark only; column = position - line_start + 1", floor=10)
     run_r4(ctx, r4)
-    ctx.assume("the mark keeps designating the same stream offset across refills (decided by C02-R2)")
+    from .c02 import run_r2 as c02_r2
+    r5 = ctx.rule("C08-R5", "the mark (and the position) keep designating the same stream offset across refills and realignment (shared with C02-R2)", floor=25)
+    c02_r2(ctx, r5)
     ctx.assume("tabs_or_spaces returns an offset >= its argument (decided by C16-R3)")
     return "other", "typestate/path rules on the maintenance of mark, line and line_start on every path to an error", {}
